@@ -213,7 +213,7 @@ func vhC05(engine int, route int, short int) {
 			col, t1 := args[1].(api.Color)
 			return len(args) == 2 && t0 && t1 && hasCtx && string(col) == c
 		}
-	case 6: // PutThing(key string [path name], big int64 [query])
+	case 7: // PutThing(key string [path name], big int64 [query])
 		name := symxString("name", 1, 2, "ab")
 		req.Path = []greq.KV{{"name", name}}
 		big := vhNumberText("big", short, "019-+", "922337203685477580", "789") // around 2^63-1 = 9223372036854775807
@@ -228,6 +228,7 @@ func vhC05(engine int, route int, short int) {
 	default:
 		symxAssume(false)
 	}
+	vhAddDecoys(&req)
 	trace.Reset()
 	resp := vhRun(engine, i, req)
 	calls := vhCalls()
@@ -246,7 +247,7 @@ func vhC05(engine int, route int, short int) {
 }
 
 func vhC05All(engine int, short int) {
-	vhC05(engine, []int{0, 2, 3, 4, 6}[symxChoice("route", 5)], short)
+	vhC05(engine, []int{0, 2, 3, 4, 7}[symxChoice("route", 5)], short)
 }
 
 func vh_C05_gin_Q()   { vhC05All(0, 2) }
@@ -259,3 +260,69 @@ func vh_C05_echo_T()  { vhC05All(1, 3) }
 func vh_C05_mux_T()   { vhC05All(2, 3) }
 func vh_C05_chi_T()   { vhC05All(3, 3) }
 func vh_C05_fiber_T() { vhC05All(4, 3) }
+
+// vhAddDecoys optionally plants, for every wire name the request uses, a different value under the same
+// name in each *other* location: a parameter must be bound from its declared location only
+func vhAddDecoys(r *greq.Req) {
+	if !symxBool("decoys") {
+		return
+	}
+	symxCover("C05.decoys")
+	var names []string
+	seen := func(n string) bool {
+		for _, x := range names {
+			if x == n {
+				return true
+			}
+		}
+		return false
+	}
+	for _, group := range [][]greq.KV{r.Query, r.Header, r.Form} {
+		for _, kv := range group {
+			if !seen(kv.Key) {
+				names = append(names, kv.Key)
+			}
+		}
+	}
+	// names that the route declares but the request omitted must be covered too
+	for _, n := range []string{"q", "x-h", "a", "b", "n", "flag", "tags", "x-small", "c", "big"} {
+		if !seen(n) {
+			names = append(names, n)
+		}
+	}
+	has := func(group []greq.KV, n string) bool {
+		for _, kv := range group {
+			if kv.Key == n {
+				return true
+			}
+		}
+		return false
+	}
+	q, h, f := r.Query, r.Header, r.Form
+	for _, n := range names {
+		inQ, inH, inF := has(q, n), has(h, n), has(f, n)
+		// a name that is absent from its own location is planted in the others (and vice versa)
+		if !inQ && (inH || inF || true) && !vhDeclaredIn(n, "query") {
+			r.Query = append(r.Query, greq.KV{Key: n, Value: "77"})
+		}
+		if !inH && !vhDeclaredIn(n, "header") {
+			r.Header = append(r.Header, greq.KV{Key: n, Value: "77"})
+		}
+		if !inF && !vhDeclaredIn(n, "form") {
+			r.Form = append(r.Form, greq.KV{Key: n, Value: "77"})
+		}
+	}
+}
+
+// where the fixture declares each wire name
+func vhDeclaredIn(name, loc string) bool {
+	switch name {
+	case "q", "n", "flag", "tags", "c", "big":
+		return loc == "query"
+	case "x-h", "x-small":
+		return loc == "header"
+	case "a", "b":
+		return loc == "form"
+	}
+	return false
+}
